@@ -20,7 +20,7 @@ import aquacrop.core as core
 from aquacrop.entities.crops.crop_params import crop_params
 
 _ORIG_STEP = core.solution_single_time_step
-STATS = {"ops": collections.Counter(), "outcomes": collections.Counter(), "outcomes_valid_stream": collections.Counter(), "streams": collections.Counter(),
+STATS = {"on_finished_model": collections.Counter(), "ops": collections.Counter(), "outcomes": collections.Counter(), "outcomes_valid_stream": collections.Counter(), "streams": collections.Counter(),
          "dropped": collections.Counter(), "shape": collections.Counter()}
 
 OPC = {"run": 0, "till": 1, "res": 2, "flux": 3, "sto": 4, "gro": 5, "info": 6}
@@ -116,9 +116,10 @@ def observe(cfg, ops):
         return r
 
     core.solution_single_time_step = wrapped
-    exp = []; kinds = []
+    exp = []; kinds = []; onfin = []
     try:
         for op in ops:
+            fin_before = bool(getattr(getattr(m, "_clock_struct", None), "model_is_finished", False))
             try:
                 if op[0] == "run":
                     r = m.run_model(num_steps=op[1], initialize_model=op[2], process_outputs=op[3])
@@ -144,13 +145,14 @@ def observe(cfg, ops):
                 if not clocks and op[0] in ("run", "till") and op[-2 if op[0] == "run" else -1] and not hasattr(m, "_weather"):
                     return {"init_error": sim.exc_info(e), "first": len(exp) == 0}
                 out = ["X", exc_kind(e)]
+            onfin.append(fin_before)
             kinds.append(out[0] + (":" + out[1] if out[0] in ("X", "T") else "") + (":frame" if out[0] == "T" and out[3] == "T" else ""))
             exp += out + view_tokens(m, len(clocks), starts[-1] if starts else None)
             if out[0] == "X" and out[1] in ("CI", "CK"):
                 break       # the model keeps the state before the failing step; the code keeps the day's row: stop comparing
     finally:
         core.solution_single_time_step = _ORIG_STEP
-    return {"clocks": clocks, "streams": streams, "exp": exp, "kinds": kinds, "nops": len(kinds)}
+    return {"clocks": clocks, "streams": streams, "exp": exp, "kinds": kinds, "nops": len(kinds), "onfin": onfin}
 
 
 def op_tokens(op):
@@ -193,7 +195,7 @@ def job(payload):
         toks += op_tokens(p)
     exp = ["S", str(len(used))] + o["exp"]
     return {"line": " ".join(toks), "exp": exp, "cfg": cfg, "ops": used, "kinds": o["kinds"], "stream": stream,
-            "clock": clocks[0] if clocks else None, "inits": len(clocks), "steps": sum(len(s) for s in o["streams"])}
+            "clock": clocks[0] if clocks else None, "onfin": o["onfin"], "inits": len(clocks), "steps": sum(len(s) for s in o["streams"])}
 
 
 # ---------------------------------------------------------------------------------------------------------------
@@ -266,6 +268,24 @@ def adversarial_ops(rng):
     return ops
 
 
+def finished_ops(rng):
+    """a finishing call first, then every kind of call on the finished object (all option combinations of run_model)"""
+    n = rng.randint(4, 25)
+    r = rng.random()
+    first = ("till", True) if r < 0.5 else ("run", rng.choice([400, 1000]), True, rng.random() < 0.3)
+    ops = [first]
+    p_init = rng.choice([0.0, 0.05, 0.2])
+    while len(ops) < n:
+        r = rng.random()
+        if r < 0.55:
+            ops.append(("run", rng.choice([-3, 0, 1, 1, 2, 5, 100]), rng.random() < p_init, rng.random() < 0.5))
+        elif r < 0.65:
+            ops.append(("till", rng.random() < p_init))
+        else:
+            ops.append((rng.choice(GETTERS),))
+    return ops
+
+
 # the witnesses of ApiP.v (refutations and examples), replayed on real models
 DIRECTED = [
     [("run", 2, True, True), ("run", 2, False, False), ("till", False), ("info",), ("flux",), ("res",)],            # process_outputs in the middle
@@ -276,6 +296,13 @@ DIRECTED = [
     [("run", 2, True, False), ("run", 1, False, False), ("run", 5, False, False), ("run", 1000, False, False), ("res",), ("info",), ("flux",)],
     [("run", 1000, True, True), ("res",), ("info",), ("gro",), ("run", 2, True, False), ("info",), ("res",), ("gro",)],   # finishing call with process_outputs, then re-initialise
     [("run", 0, True, True), ("run", -1, False, True), ("run", 1, False, True), ("run", 1, False, True), ("sto",)],
+    # calls on a finished object, every option combination (repair b7ac20d: they return True and perform no step)
+    [("till", True), ("run", 1, False, False), ("run", 5, False, True), ("run", 0, False, False), ("run", -1, False, True), ("info",), ("res",),
+     ("flux",), ("till", False), ("run", 1, False, False), ("run", 2, True, True), ("run", 1, False, False), ("gro",)],
+    [("run", 1000, True, False), ("run", 3, False, True), ("run", 3, False, False), ("sto",), ("run", 3, True, False), ("run", 1000, False, False),
+     ("run", 1, False, True), ("res",), ("info",)],
+    [("till", True), ("run", 0, True, True), ("run", 1, False, True), ("run", 1, False, False), ("flux",), ("info",)],
+    [("run", 1000, True, True), ("run", 1, False, True), ("run", 1, False, False), ("till", False), ("run", 2, True, False), ("info",), ("flux",)],
 ]
 
 
@@ -283,7 +310,7 @@ def gen(rng, n):
     for k in STATS.values():
         k.clear()
     payloads = []
-    n_dir = min(len(DIRECTED) * 3, max(8, n // 25))
+    n_dir = min(len(DIRECTED) * 3, max(len(DIRECTED), n // 25))
     n_mal = max(2, n // 60)
     for i in range(n_dir):
         payloads.append((api_cfg(rng, two_seasons=(i % 5 == 4)), DIRECTED[i % len(DIRECTED)], "directed"))
@@ -291,10 +318,13 @@ def gen(rng, n):
         payloads.append((api_cfg(rng, no_season=True), [("run", 2, True, False), ("flux",), ("till", False)], "malformed"))
     while len(payloads) < int(n * 1.08) + 4:
         two = rng.random() < 0.2
-        if rng.random() < 0.6:
+        r = rng.random()
+        if r < 0.55:
             payloads.append((api_cfg(rng, two_seasons=two), valid_ops(rng), "valid"))
-        else:
+        elif r < 0.85:
             payloads.append((api_cfg(rng, two_seasons=two), adversarial_ops(rng), "adversarial"))
+        else:
+            payloads.append((api_cfg(rng, two_seasons=two), finished_ops(rng), "finished"))
     res = sim.pmap(job, payloads, timeout=300)
     count = 0
     for r in res:
@@ -310,6 +340,9 @@ def gen(rng, n):
         for p in r["ops"]:
             STATS["ops"][p[0] + ("" if p[0] not in ("run", "till") else (":init" if p[-2 if p[0] == "run" else -1] else "") +
                                  (":po" if p[0] == "run" and p[3] else "") + (":k<1" if p[0] == "run" and p[1] < 1 else ""))] += 1
+        for p_, k_, f_ in zip(r["ops"], r["kinds"], r.get("onfin", [])):
+            if f_ and p_[0] in ("run", "till"):     # the call was made on an object whose clock was already finished
+                STATS["on_finished_model"]["%s%s -> %s" % (p_[0], tuple(("k>=1" if x >= 1 else "k<1") if not isinstance(x, bool) else x for x in p_[1:]), k_)] += 1
         for k in r["kinds"]:
             STATS["outcomes"][k] += 1
             if r["stream"] == "valid":
